@@ -24,6 +24,7 @@ P = "JanetModel.Props.C13."
 THEOREMS = [P + t for t in (
     "mul_chain_exact", "div_chain_exact", "neg_branch_at_least_4_digits", "msd_nonzero", "mant_estimate_sound",
     "scan_uint64_exact_or_rejected", "scan_int64_exact_or_rejected",
+    "extract_faithful_int", "extract_faithful_frac", "exact_when_representable", "within_one_ulp",
 )]
 
 ENV = dict(os.environ, ASAN_OPTIONS="detect_leaks=0:abort_on_error=0", UBSAN_OPTIONS="print_stacktrace=1")
